@@ -123,12 +123,50 @@ SHORT = {
  "C19-f": ("deployment keeper caches decoded params; governance writes the subspace directly", "minimum deposit raised by governance, then a create below the new minimum"),
  "C20-e": ("idle stop timer now starts; stopping it drains a channel that never fires", "manager idle at some point, later a lease or submission"),
  "C20-f": ("duplicate manifests skipped across the whole version history (no move to the end)", "versions A, B, then A again"),
+ "C01-g": ("PaymentClose saves the pre-settlement copy of a payment as closed after the overdraft path paid it out", "two leases, long gap, close of one lease is the first action after exhaustion"),
+ "C01-h": ("PaymentCreate saves the pre-settlement account: the debit of the settlement is undone", "second lease created some blocks after the first"),
+ "C02-g": ("same-block settle returns no payments to AccountClose (payments stay open on a closed account)", "close-deployment in the block of an earlier settle trigger; caught as C03/C05"),
+ "C02-h": ("InitGenesis rebases SettledAt of open accounts to the boot height", "export/import restart while an open account has unsettled blocks"),
+ "C03-g": ("deposit settles first and returns success on overdraft (coins taken, nothing recorded)", "deposit as the first action after exhaustion"),
+ "C03-h": ("ValidateGenesis table allows only overdrawn payments under an overdrawn account", "a lease closed earlier, then the account overdraws, then export"),
+ "C04-g": ("close-bid no longer checks lease/bid state: a stale close-bid pauses the group again", "close-bid for an ended bid after the group was re-let or the deployment closed"),
+ "C04-h": ("escrow payments prefix loses its trailing '/' (scopedKey refactor)", "same tenant, dseq 12 and 123, the shorter closed"),
+ "C05-g": ("PaymentClose hands ALL open payments of the account to the payment-closed hook", "two concurrently leased groups, one lease ended individually"),
+ "C05-h": ("LeaseIDFromEscrowAccount swaps gseq and oseq (loop refactor)", "leases 1/2/P and 2/1/P of one provider, one closed"),
+ "C06-g": ("bids-for-group prefix cut at 8 instead of 4 bytes: closing one group closes the bids of all groups", "multi-group deployment, pause/close of one group"),
+ "C06-h": ("create-lease infers 'bid open' from 'order open': revives a bid its provider withdrew", "provider closes its open bid, tenant then creates the lease"),
+ "C07-g": ("pubkey and certificate validated concurrently: first error recorded wins", "certificate message with two independent defects"),
+ "C07-h": ("new crisis invariant settles the accounts it inspects; runs per node-local --inv-check-period", "nodes with different invariant-check periods"),
+ "C08-g": ("delete-by-key keeps an empty attestation record ('signed by' with nothing signed)", "auditor withdraws every key, order names the auditor and requires no attribute"),
+ "C08-h": ("update guard marks a group checked before testing the lease state", "closed lease and active lease of the same group, then an update"),
+ "C09-g": ("certificate checks moved to VerifyConnection and skipped on resumed sessions", "revocation between a full handshake and a resumed one"),
+ "C09-h": ("status response cache keyed by URL path only", "two tenants with equal dseq/gseq/oseq within the cache lifetime"),
+ "C10-g": ("update versions recorded only once (set instead of history)", "versions A, B, C, then B again"),
+ "C10-h": ("cross validation limited to the groups leased at upload time", "version of a manifest that mismatches an unleased group, lease won later"),
+ "C11-g": ("network policies applied after the workloads", "kube API failure after the first deployment was created"),
+ "C11-h": ("stale-resource cleanup skipped when the deployment count does not exceed the service count", "update that replaces a service by a differently named one"),
+ "C12-g": ("an inventory report with no nodes is ignored (previous nodes kept)", "refresh reporting zero nodes, then a reserve"),
+ "C12-h": ("external ports checked for the new reservation only", ">=2 pending reservations with endpoints"),
+ "C13-g": ("failed create-bid broadcast is retried once", "create-bid broadcast fails once"),
+ "C13-h": ("order monitors run on the service context: close-bid at shutdown sent with a cancelled context", "shutdown by context cancellation with an open bid"),
+ "C14-g": ("update branch decides on 'operation outstanding' only: deploy started before the hostnames are granted", "update between manager creation and the hostname answer"),
+ "C14-h": ("hostname service validates and records in one pass", "manifest naming a free hostname before an unavailable one, then close"),
+ "C15-g": ("backlog consumed by a read index; clone still copies from index 0", "clone after a partial read"),
+ "C15-h": ("chain feed skips results whose height is not above the last one", ">=2 successful transactions in one block"),
+ "C16-g": ("group transitions folded into one helper that has no event for insufficient-funds", "overdraft found by any settling transaction"),
+ "C16-h": ("Publish merges both subscriptions and drops transactions behind the newest header", "header of block H+1 consumed before a transaction of block H; caught by the C15 feed scenario"),
+ "C17-g": ("revoke parses the serial with base auto-detection", "zero-padded serial"),
+ "C17-h": ("first page always counts the total (SDK FilteredPaginate skips an entry then)", "state filter, more matches than the limit, a non-match right after the page boundary"),
+ "C19-g": ("group validation remembered per manifest version in process memory", "a second create with the same version and out-of-limit groups"),
+ "C19-h": ("recover() in GroupSpec.ValidateBasic assigns to a local err", "quantity outside uint64"),
+ "C20-g": ("fetch in-flight marker not cleared when the query fails", "one failed deployment query, then a submission or shutdown"),
+ "C20-h": ("leases found at start-up are parked; a lease closed while parked is still handed over", "restart holding a lease, lease closed, then a submission"),
 }
 
 def main():
     rows = []
     os.makedirs(DST, exist_ok=True)
-    for d in sorted(glob.glob(SRC + "/C*/[abcdef]")):
+    for d in sorted(glob.glob(SRC + "/C*/[abcdefgh]")):
         prop, var = d.split("/")[-2:]
         key = f"{prop}-{var}"
         res = os.path.join(d, "RESULT.txt")
